@@ -16,9 +16,49 @@
 
 use std::collections::HashMap;
 
-use crate::stack::{Stack, StackObjectRef};
+use crate::stack::{Stack, StackObject, StackObjectRef};
 
 use super::protocol::Version;
+
+/// Containers whose contents were changed in place (APPEND, SETITEM, ADDITEMS, BUILD, ...).
+///
+/// Only such a cell can close a reference cycle in the simulated object graph, e.g.
+/// `EMPTY_LIST DUP APPEND` puts a list into itself, and an `Rc` cycle is never freed. The
+/// cells are remembered here and emptied on `reset()` and on drop, which breaks every cycle.
+#[derive(Debug, Default)]
+pub struct InPlaceCells(Vec<StackObjectRef>);
+
+impl InPlaceCells {
+    /// Remember a cell that is about to be modified in place.
+    pub fn push(&mut self, cell: StackObjectRef) {
+        self.0.push(cell);
+    }
+
+    /// Empty every remembered cell.
+    pub fn release(&mut self) {
+        for cell in self.0.drain(..) {
+            let Ok(mut obj) = cell.0.try_borrow_mut() else {
+                continue;
+            };
+            let old = std::mem::replace(&mut *obj, StackObject::None);
+            drop(obj);
+            drop(old);
+        }
+    }
+}
+
+impl Clone for InPlaceCells {
+    /// A cloned state shares its cells with the original, which stays responsible for them.
+    fn clone(&self) -> Self {
+        Self::default()
+    }
+}
+
+impl Drop for InPlaceCells {
+    fn drop(&mut self) {
+        self.release();
+    }
+}
 
 /// Generator state tracking the pickle virtual machine (PVM) state.
 ///
@@ -40,6 +80,9 @@ pub struct State {
     pub memo: HashMap<usize, StackObjectRef>,
     #[cfg(feature = "verif-hooks")]
     pub memo: HashMap<usize, StackObjectRef, crate::verif::MemoHasher>,
+
+    /// Containers modified in place, emptied on reset/drop to break reference cycles
+    pub in_place: InPlaceCells,
 }
 
 impl State {
@@ -59,5 +102,6 @@ impl State {
         self.proto_emitted = false;
         self.memo.clear();
         self.stack.reset();
+        self.in_place.release();
     }
 }
